@@ -38,7 +38,11 @@ def run_one(binary, case, scratch, timeout_s=TIMEOUT_S, keep=False):
     out = out.decode("utf-8", "replace")
     res = {"status": None, "signal": None, "wall": round(wall, 3), "rss_kb": None, "diag": False,
            "out_exists": os.path.exists(os.path.join(scratch, "out.bin")), "tail": out[-300:]}
-    res["diag"] = bool(re.search(r"error:", re.sub(r"\x1b\[[0-9;]*m", "", out)))
+    plain = re.sub(r"\x1b\[[0-9;]*m", "", out)
+    res["diag"] = bool(re.search(r"error:", plain))
+    # the class of the diagnostic, as far as C19 speaks about it: a nesting / recursion LIMIT, or the supported RANGE
+    res["limit_diag"] = bool(re.search(r"depth limit reached", plain))
+    res["range_diag"] = bool(re.search(r"out of supported range", plain))
     tm = ""
     if os.path.exists(tfile):
         tm = open(tfile, errors="replace").read()
